@@ -22,10 +22,32 @@ Require Import Grits.Base Grits.ModeDefs Grits.Modes Grits.STypes Grits.Forms Gr
 Require Import Grits.TcTop Grits.spec.Sax Grits.proofs.Causality.
 
 (* ------------------------------------------------------------------ the abstraction *)
-Definition proc_obj (pr : proc) : list sobj :=
-  match pr_provs pr with
-  | [n] => match chan n with Some a => [obj a (pr_body0 pr)] | None => [] end
+(* the object a provider list + body stands for, when no identifier of the process is needed: one
+   provider — the term itself; two providers and a forward — the pending contraction split(c1,c2,b)
+   (the interpreter's `split` spawns exactly this process) *)
+Definition pobj (provs : list name) (body : form) : list sobj :=
+  match provs with
+  | [n] => match chan n with Some a => [obj a body] | None => [] end
+  | [n1; n2] =>
+    match body with
+    | FFwd _ from false =>
+      match chan n1, chan n2, chan from with Some c1, Some c2, Some b => [SSplit c1 c2 b] | _, _, _ => [] end
+    | _ => []
+    end
   | _ => []
+  end.
+Definition spawn_objs (ss : list spawn) : list sobj := flat_map (fun s => pobj (sp_provs s) (sp_body s)) ss.
+(* a process with two providers that is not a forward has adopted a contraction request and will
+   duplicate itself as its very next step (DUP, administrative): it is read as the copies that step
+   creates — their fresh channel names are determined by the process identifier and its counter *)
+Definition proc_obj (q : pid) (pr : proc) : list sobj :=
+  match pr_provs pr with
+  | [n1; n2] =>
+    match pr_body0 pr with
+    | FFwd _ _ _ => pobj (pr_provs pr) (pr_body0 pr)
+    | _ => match dup_effect q pr with EOk e => spawn_objs (e_spawn e) | EErr _ => [] end
+    end
+  | _ => pobj (pr_provs pr) (pr_body0 pr)
   end.
 Definition msg_obj (k : cid) (m : msg) : list sobj :=
   match m_rule m with
@@ -38,6 +60,7 @@ Definition msg_obj (k : cid) (m : msg) : list sobj :=
   | RSHF => match chan (m_c1 m) with Some d => [SMsgN k (NShift d)] | None => [] end
   | RFWD => match m_provs m with
             | [n] => match chan n with Some a => [SFwd a k] | None => [] end
+            | [n1; n2] => match chan n1, chan n2 with Some c1, Some c2 => [SSplit c1 c2 k] | _, _ => [] end
             | _ => []
             end
   | RGC => [SDrop k]
@@ -45,21 +68,21 @@ Definition msg_obj (k : cid) (m : msg) : list sobj :=
 Definition chan_obj (k : cid) (st : chan_st) : list sobj :=
   match ch_buf st with Some m => msg_obj k m | None => [] end.
 
-Definition procs_objs (pm : gmap pid proc) : list sobj := flat_map (fun x => proc_obj (snd x)) (map_to_list pm).
+Definition procs_objs (pm : gmap pid proc) : list sobj := flat_map (fun x => proc_obj (fst x) (snd x)) (map_to_list pm).
 Definition chans_objs (cm : gmap cid chan_st) : list sobj := flat_map (fun x => chan_obj (fst x) (snd x)) (map_to_list cm).
 Definition α (c : config) : sconfig := procs_objs (procs c) ++ chans_objs (chans c).
 
 (* ------------------------------------------------------------------ the object lists under table updates *)
-Lemma procs_objs_lookup pm q pr : pm !! q = Some pr -> procs_objs pm ≡ₚ proc_obj pr ++ procs_objs (delete q pm).
+Lemma procs_objs_lookup pm q pr : pm !! q = Some pr -> procs_objs pm ≡ₚ proc_obj q pr ++ procs_objs (delete q pm).
 Proof. intros H. unfold procs_objs. by rewrite <- (map_to_list_delete pm q pr H). Qed.
 
-Lemma procs_objs_insert pm q pr : procs_objs (<[q := pr]> pm) ≡ₚ proc_obj pr ++ procs_objs (delete q pm).
+Lemma procs_objs_insert pm q pr : procs_objs (<[q := pr]> pm) ≡ₚ proc_obj q pr ++ procs_objs (delete q pm).
 Proof.
   unfold procs_objs. rewrite <- insert_delete_insert.
   rewrite map_to_list_insert by apply lookup_delete. done.
 Qed.
 
-Lemma procs_objs_insert_fresh pm q pr : pm !! q = None -> procs_objs (<[q := pr]> pm) ≡ₚ proc_obj pr ++ procs_objs pm.
+Lemma procs_objs_insert_fresh pm q pr : pm !! q = None -> procs_objs (<[q := pr]> pm) ≡ₚ proc_obj q pr ++ procs_objs pm.
 Proof. intros H. unfold procs_objs. by rewrite map_to_list_insert. Qed.
 
 Lemma chans_objs_lookup cm k st : cm !! k = Some st -> chans_objs cm ≡ₚ chan_obj k st ++ chans_objs (delete k cm).
@@ -88,14 +111,14 @@ Qed.
 (* an effect that spawns nothing and creates no channel: the acting process is replaced *)
 Lemma alpha_effect_simple c self p p' cl o :
   α (apply_effect c self p (Eff (Continue p') [] [] cl o)) ≡ₚ
-  proc_obj p' ++ procs_objs (delete self (procs c)) ++ chans_objs (chans c).
+  proc_obj self p' ++ procs_objs (delete self (procs c)) ++ chans_objs (chans c).
 Proof.
-  unfold α, apply_effect. cbn. rewrite procs_objs_insert, chans_objs_close.
-  by rewrite <- app_assoc.
+  unfold α, apply_effect. cbn [e_after e_spawn e_newch e_close e_out add_spawns length foldr procs chans]. rewrite procs_objs_insert, chans_objs_close.
+  rewrite <- app_assoc. f_equiv. destruct p' as [pv bd nx]. cbn [pr_provs pr_body0 pr_next]. by rewrite Nat.add_0_r.
 Qed.
 
 Lemma alpha_lookup c self p : procs c !! self = Some p ->
-  α c ≡ₚ proc_obj p ++ procs_objs (delete self (procs c)) ++ chans_objs (chans c).
+  α c ≡ₚ proc_obj self p ++ procs_objs (delete self (procs c)) ++ chans_objs (chans c).
 Proof. intros H. unfold α. rewrite (procs_objs_lookup _ _ _ H). by rewrite <- app_assoc. Qed.
 
 Lemma labels_effect c self p e : labels (apply_effect c self p e) = labels c ++ e_out e.
@@ -156,7 +179,7 @@ Lemma sax_one L R Δ ls C C' :
 Proof. intros HC HC' Hr. exists L, R, Δ. split_and!; try done. by left. Qed.
 
 Lemma refine_send c self p k st m :
-  procs c !! self = Some p -> chans c !! k = Some st -> ch_buf st = None -> proc_obj p = msg_obj k m ->
+  procs c !! self = Some p -> chans c !! k = Some st -> ch_buf st = None -> proc_obj self p = msg_obj k m ->
   α (del_proc (put_msg c k st (Some m)) self) ≡ₚ α c.
 Proof.
   intros Hp Hk Hb Ho. unfold α. cbn. rewrite chans_objs_insert, (procs_objs_lookup _ _ _ Hp), (chans_objs_lookup _ k st Hk).
@@ -165,8 +188,8 @@ Qed.
 
 Lemma refine_recv c self p k st m p' cl L :
   procs c !! self = Some p -> chans c !! k = Some st -> ch_buf st = Some m ->
-  L ≡ₚ proc_obj p ++ msg_obj k m ->
-  sred_lin F (procs_objs (delete self (procs c)) ++ chans_objs (delete k (chans c))) L [] (proc_obj p') ->
+  L ≡ₚ proc_obj self p ++ msg_obj k m ->
+  sred_lin F (procs_objs (delete self (procs c)) ++ chans_objs (delete k (chans c))) L [] (proc_obj self p') ->
   sax_step F false (α c) [] (α (apply_effect (put_msg c k st None) self p (Eff (Continue p') [] [] cl []))).
 Proof.
   intros Hp Hk Hb HL Hr. eapply sax_one; [| |exact Hr].
@@ -177,7 +200,7 @@ Qed.
 
 Lemma refine_internal c self p p' o :
   procs c !! self = Some p ->
-  sred_lin F (procs_objs (delete self (procs c)) ++ chans_objs (chans c)) (proc_obj p) o (proc_obj p') ->
+  sred_lin F (procs_objs (delete self (procs c)) ++ chans_objs (chans c)) (proc_obj self p) o (proc_obj self p') ->
   sax_step F false (α c) o (α (apply_effect c self p (Eff (Continue p') [] [] [] o))).
 Proof.
   intros Hp Hr. eapply sax_one; [| |exact Hr].
@@ -247,8 +270,8 @@ Proof.
     assert (match body with FFwd _ _ _ => true | _ => false end = false) as Hf by (by destruct body).
     rewrite Hf in He. cbn in He. by simplify_eq. }
   eapply (refine_recv c self _ k st m _ _ [SFwd a' k; SProc k body]); try done.
-  - unfold proc_obj, msg_obj. cbn. rewrite Hn, Hrule, Hprovs, Hn', Hobj. apply Permutation_swap.
-  - unfold proc_obj, set_provs_body. cbn. rewrite Hprovs, Hn', Hobj.
+  - unfold proc_obj, pobj, msg_obj. cbn. rewrite Hn, Hrule, Hprovs, Hn', Hobj. apply Permutation_swap.
+  - unfold proc_obj, pobj, set_provs_body. cbn. rewrite Hprovs, Hn', Hobj.
     apply (s_id F _ a' k (SProc k body)). done.
 Qed.
 
@@ -284,13 +307,13 @@ Lemma refine_cut c self n a x P Q next :
 Proof.
   intros nc Hp Hn (Hf1 & Hf2 & Hf3). cbn in Hf1, Hf2, Hf3.
   assert (α c ≡ₚ [SProc a (FNew x P Q)] ++ procs_objs (delete self (procs c)) ++ chans_objs (chans c)) as Hc.
-  { rewrite (alpha_lookup c self _ Hp). unfold proc_obj. cbn. by rewrite Hn. }
+  { rewrite (alpha_lookup c self _ Hp). unfold proc_obj, pobj. cbn. by rewrite Hn. }
   eapply (sax_one [SProc a (FNew x P Q)] [obj (self ++ [next]) P; obj a (subst x nc Q)]); [exact Hc| |].
   - unfold α, apply_effect. cbn.
     rewrite procs_objs_insert. rewrite delete_insert_ne by apply self_ne_snoc.
     rewrite procs_objs_insert_fresh by (apply lookup_delete_None; by right).
     rewrite chans_objs_new by done.
-    unfold proc_obj. cbn. rewrite Hn. cbn. apply Permutation_swap.
+    unfold proc_obj, pobj. cbn. rewrite Hn. cbn. apply Permutation_swap.
   - apply (s_cut F _ a x P Q nc (self ++ [next])); [done|done|].
     intros Hin. apply Hf1. unfold cfg_cids in *. by rewrite Hc.
 Qed.
@@ -303,14 +326,18 @@ Ltac solve_send Hstep Hp Hobj :=
   [left; split; [done|]; symmetry; eapply refine_send; [exact Hp|exact Hk|exact Hb|rewrite Hobj; cbn; repeat (match goal with H : _ = _ |- _ => rewrite H end); done]
   |unfold labels; cbn; by rewrite app_nil_r].
 
-Theorem refines_sax01 c self c' : Inv c -> step Async D F c (Run self) = SStep c' ->
+(* only the acting process needs its local conditions *)
+Theorem refines_sax01_at c self c' :
+  (forall p, procs c !! self = Some p -> step_ok c self p) -> step Async D F c (Run self) = SStep c' ->
   exists ls, sax_step01 (α c) ls (α c') /\ labels c' = labels c ++ ls.
 Proof.
-  intros HInv Hstep. apply step_run_async_inv in Hstep as (p & Hp & Hstep).
-  destruct (HInv self p Hp) as ((n & a & Hprov & Hn) & Hlin & Hfresh & Hrecv).
+  intros HInv0 Hstep. assert (HInv : forall self0 p, self0 = self -> procs c !! self0 = Some p -> step_ok c self0 p)
+    by (intros ? ? -> ?; auto).
+  apply step_run_async_inv in Hstep as (p & Hp & Hstep).
+  destruct (HInv self p eq_refl Hp) as ((n & a & Hprov & Hn) & Hlin & Hfresh & Hrecv).
   destruct p as [provs body next]. cbn in Hprov, Hlin, Hfresh. subst provs.
-  assert (proc_obj (Proc [n] body next) = [obj a body]) as Hobj by (unfold proc_obj; cbn; by rewrite Hn).
-  pose proof (HInv self _ Hp) as Hok.
+  assert (proc_obj self (Proc [n] body next) = [obj a body]) as Hobj by (unfold proc_obj, pobj; cbn; by rewrite Hn).
+  pose proof (HInv self _ eq_refl Hp) as Hok.
   (* common start of the receive cases: the message, the effect, the labels *)
   assert (forall k, action_of Async D (Proc [n] body next) = ARecv k ->
     exists st m e, chans c !! k = Some st /\ ch_buf st = Some m /\
@@ -340,7 +367,7 @@ Proof.
         unfold msg_ok in Hmok. rewrite Hrule in Hmok. destruct Hmok as [d Hd].
         eapply (refine_recv c self _ a st m _ [] [SProc a (FRecv pay cont from body); SMsgN a (NPair (m_c1 m) d)]); try done.
         -- rewrite Hobj. unfold msg_obj. by rewrite Hrule, Hd.
-        -- unfold proc_obj, set_provs_body. cbn. rewrite Hd. by apply s_lolli.
+        -- unfold proc_obj, pobj, set_provs_body. cbn. rewrite Hd. by apply s_lolli.
       * destruct (Hfwd eq_refl) as [Hsc Hnf]. by eapply refine_fwd_request.
       * unfold msg_ok in Hmok. by rewrite Hrule in Hmok.
     + destruct (chan from) as [b|] eqn:Hcf.
@@ -354,7 +381,7 @@ Proof.
         unfold on_message in He; rewrite Hrule in He; cbn in He; rewrite ?Hfrom in He; cbn in He. simplify_eq.
         eapply (refine_recv c self _ b st m _ [] [SMsgP b (VPair (m_c1 m) (m_c2 m)); SProc a (FRecv pay cont from body)]); try done.
         -- rewrite Hobj. unfold msg_obj. rewrite Hrule. apply Permutation_swap.
-        -- unfold proc_obj, set_body. cbn. rewrite Hn. by apply s_tensor.
+        -- unfold proc_obj, pobj, set_body. cbn. rewrite Hn. by apply s_tensor.
       * destruct (Hfwd eq_refl) as [Hsc Hnf]. by eapply refine_fwd_request.
       * unfold msg_ok in Hmok. by rewrite Hrule in Hmok.
   - (* select *)
@@ -375,7 +402,7 @@ Proof.
         unfold msg_ok in Hmok. rewrite Hrule in Hmok. destruct Hmok as [d Hd].
         eapply (refine_recv c self _ a st m _ [] [SProc a (FCase from bs); SMsgN a (NLab (m_label m) d)]); try done.
         -- rewrite Hobj. unfold msg_obj. by rewrite Hrule, Hd.
-        -- unfold proc_obj, set_provs_body. cbn. rewrite Hd. eapply s_with; [done|]. by rewrite <- find_branch_lookup.
+        -- unfold proc_obj, pobj, set_provs_body. cbn. rewrite Hd. eapply s_with; [done|]. by rewrite <- find_branch_lookup.
       * destruct (Hfwd eq_refl) as [Hsc Hnf]. by eapply refine_fwd_request.
       * unfold msg_ok in Hmok. by rewrite Hrule in Hmok.
     + destruct (chan from) as [b|] eqn:Hcf.
@@ -390,7 +417,7 @@ Proof.
         destruct (find_branch (m_label m) bs) as [[y Q]|] eqn:Hbr; [|done]. simplify_eq.
         eapply (refine_recv c self _ b st m _ [] [SMsgP b (VLab (m_label m) (m_c1 m)); SProc a (FCase from bs)]); try done.
         -- rewrite Hobj. unfold msg_obj. rewrite Hrule. apply Permutation_swap.
-        -- unfold proc_obj, set_body. cbn. rewrite Hn. eapply s_plus; [done|done|]. by rewrite <- find_branch_lookup.
+        -- unfold proc_obj, pobj, set_body. cbn. rewrite Hn. eapply s_plus; [done|done|]. by rewrite <- find_branch_lookup.
       * destruct (Hfwd eq_refl) as [Hsc Hnf]. by eapply refine_fwd_request.
       * unfold msg_ok in Hmok. by rewrite Hrule in Hmok.
   - (* cut *)
@@ -412,7 +439,7 @@ Proof.
       unfold on_message in He; rewrite Hrule in He; cbn in He. simplify_eq.
       eapply (refine_recv c self _ b st m _ [] [SMsgP b VUnit; SProc a (FWait c0 body)]); try done.
       * rewrite Hobj. unfold msg_obj. rewrite Hrule. apply Permutation_swap.
-      * unfold proc_obj, set_body. cbn. rewrite Hn. by apply s_one.
+      * unfold proc_obj, pobj, set_body. cbn. rewrite Hn. by apply s_one.
     + destruct (Hfwd eq_refl) as [Hsc Hnf]. by eapply refine_fwd_request.
     + unfold msg_ok in Hmok. by rewrite Hrule in Hmok.
   - (* forward *)
@@ -431,7 +458,7 @@ Proof.
       all: try (destruct (Hfwd eq_refl) as [_ Hnf]; done).
       all: unfold on_message in He; rewrite Hrule in He; cbn in He; simplify_eq.
       all: eapply (refine_recv c self _ b st m _ [] (SFwd a b :: msg_obj b m)); try done;
-        [by rewrite Hobj; cbn; rewrite Hto, Hcf| unfold msg_obj; rewrite Hrule; unfold proc_obj, set_body; cbn; rewrite Hn; cbn; rewrite Hto].
+        [by rewrite Hobj; cbn; rewrite Hto, Hcf| unfold msg_obj; rewrite Hrule; unfold proc_obj, pobj, set_body; cbn; rewrite Hn; cbn; rewrite Hto].
       * by apply (s_id F _ a b (SMsgP b (VPair (m_c1 m) (m_c2 m)))).
       * by apply (s_id F _ a b (SMsgP b VUnit)).
       * by apply (s_id F _ a b (SMsgP b (VShift (m_c1 m)))).
@@ -443,7 +470,7 @@ Proof.
     cbn in Hstep. destruct Hstep as (e & He & ->).
     destruct (call_body F f args) as [b|] eqn:Hcall; [|done]. simplify_eq.
     exists []. split; [right|by rewrite labels_effect]. unfold no_eff.
-    eapply refine_internal; [done|]. rewrite Hobj. unfold proc_obj, set_body. cbn. rewrite Hn.
+    eapply refine_internal; [done|]. rewrite Hobj. unfold proc_obj, pobj, set_body. cbn. rewrite Hn.
     apply s_call. by rewrite <- call_body_unfold.
   - (* cast *)
     cbn in Hstep. rewrite Hn in Hstep. destruct (is_self to) eqn:Hto.
@@ -462,7 +489,7 @@ Proof.
         unfold msg_ok in Hmok. rewrite Hrule in Hmok. destruct Hmok as [d Hd].
         eapply (refine_recv c self _ a st m _ [] [SProc a (FShift x from body); SMsgN a (NShift d)]); try done.
         -- rewrite Hobj. unfold msg_obj. by rewrite Hrule, Hd.
-        -- unfold proc_obj, set_provs_body. cbn. rewrite Hd. by apply s_up.
+        -- unfold proc_obj, pobj, set_provs_body. cbn. rewrite Hd. by apply s_up.
       * destruct (Hfwd eq_refl) as [Hsc Hnf]. by eapply refine_fwd_request.
       * unfold msg_ok in Hmok. by rewrite Hrule in Hmok.
     + destruct (chan from) as [b|] eqn:Hcf.
@@ -476,16 +503,20 @@ Proof.
         unfold on_message in He; rewrite Hrule in He; cbn in He; rewrite ?Hfrom in He; cbn in He. simplify_eq.
         eapply (refine_recv c self _ b st m _ [] [SMsgP b (VShift (m_c1 m)); SProc a (FShift x from body)]); try done.
         -- rewrite Hobj. unfold msg_obj. rewrite Hrule. apply Permutation_swap.
-        -- unfold proc_obj, set_body. cbn. rewrite Hn. by apply s_down.
+        -- unfold proc_obj, pobj, set_body. cbn. rewrite Hn. by apply s_down.
       * destruct (Hfwd eq_refl) as [Hsc Hnf]. by eapply refine_fwd_request.
       * unfold msg_ok in Hmok. by rewrite Hrule in Hmok.
   - (* drop *) done.
   - (* print *)
     cbn in Hstep. destruct Hstep as (e & He & ->). simplify_eq.
     exists [l]. split; [right|by rewrite labels_effect].
-    eapply refine_internal; [done|]. rewrite Hobj. unfold proc_obj, set_body. cbn. rewrite Hn.
+    eapply refine_internal; [done|]. rewrite Hobj. unfold proc_obj, pobj, set_body. cbn. rewrite Hn.
     apply s_print.
 Qed.
+
+Theorem refines_sax01 c self c' : Inv c -> step Async D F c (Run self) = SStep c' ->
+  exists ls, sax_step01 (α c) ls (α c') /\ labels c' = labels c ++ ls.
+Proof. intros HI. apply refines_sax01_at. intros p Hp. by apply HI. Qed.
 
 Corollary refines_sax c self c' : Inv c -> step Async D F c (Run self) = SStep c' ->
   exists ls, sax_steps F false (α c) ls (α c') /\ labels c' = labels c ++ ls.
@@ -563,16 +594,56 @@ Proof.
   rewrite <- (IH (S k)). f_equal. apply imap_ext. intros i x _. cbn. f_equal. lia.
 Qed.
 
-(* the process objects of the initial configuration, in declaration order *)
-Definition init_obj (p : program) (i : nat) (pr : procdef) : list sobj :=
-  match pr_providers pr with
-  | [_] => [obj [i; 0%nat] (close_body p (pr_body pr))]
-  | _ => []
-  end.
+Lemma combine_lookup_2 {A B} (l1 : list A) (l2 : list B) i a b :
+  l1 !! i = Some a -> l2 !! i = Some b -> combine l1 l2 !! i = Some (a, b).
+Proof.
+  revert l2 i. induction l1 as [|x l1 IH]; intros [|y l2] [|i]; cbn; try done.
+  - by intros [= ->] [= ->].
+  - apply IH.
+Qed.
 
+(* the process table of the initial configuration, as a list *)
+Lemma init_procs_list (p : program) :
+  let inits := imap (fun i pr => init_provs i (pr_providers pr)) (p_procs p) in
+  let bodyf := fun pr : procdef => fold_left (fun b '(old, new) => subst old new b) (concat inits) (pr_body pr) in
+  map_to_list (procs (init_config p)) ≡ₚ
+  map (fun x : nat * (procdef * list (name * name)) =>
+         ([fst x], Proc (map snd (snd (snd x))) (bodyf (fst (snd x))) (length (snd (snd x)))))
+      (imap (fun i x => (i, x)) (combine (p_procs p) inits)).
+Proof.
+  intros inits bodyf. unfold init_config. cbn [procs]. fold inits.
+  rewrite (fold_left_insert_to_list _ (fun x => [fst x])
+             (fun x => Proc (map snd (snd (snd x))) (bodyf (fst (snd x))) (length (snd (snd x))))).
+  - by rewrite map_to_list_empty, app_nil_r.
+  - by intros m [i [pr ini]].
+  - rewrite <- (map_map fst (fun i : nat => [i])). apply FinFun.Injective_map_NoDup; [by intros x y [= ->]|].
+    rewrite (map_fst_imap_pair _ 0). apply seq_NoDup.
+  - intros x _. apply lookup_empty.
+Qed.
+
+(* one provider per process in the initial configuration = one provider name per declaration *)
+Lemma init_single (p : program) :
+  (forall q pr, procs (init_config p) !! q = Some pr -> exists n, pr_provs pr = [n]) ->
+  Forall (fun pr => exists x, pr_providers pr = [x]) (p_procs p).
+Proof.
+  intros Hs. apply Forall_forall. intros pr Hin. apply elem_of_list_In, elem_of_list_lookup in Hin as [i Hi].
+  pose proof (init_procs_list p) as Hl. cbn zeta in Hl.
+  set (inits := imap (fun i pr => init_provs i (pr_providers pr)) (p_procs p)) in *.
+  assert (combine (p_procs p) inits !! i = Some (pr, init_provs i (pr_providers pr))) as Hc.
+  { apply combine_lookup_2; [done|]. unfold inits. by rewrite list_lookup_imap, Hi. }
+  pose proof (elem_of_lookup_imap_2 (fun i x => (i, x)) _ _ _ Hc) as Hx.
+  match type of Hl with _ ≡ₚ map ?g _ => pose proof (elem_of_list_fmap_1 g _ _ Hx) as Hy end.
+  change (list_fmap _ _ ?g ?l) with (map g l) in Hy. rewrite <- Hl in Hy. cbn in Hy.
+  apply elem_of_map_to_list in Hy. destruct (Hs _ _ Hy) as [n Hn]. cbn in Hn.
+  apply (f_equal length) in Hn. rewrite map_length in Hn. unfold init_provs in Hn. rewrite imap_length in Hn. cbn in Hn.
+  destruct (pr_providers pr) as [|x [|y r]]; try done. eauto.
+Qed.
+
+(* the process objects of the initial configuration, in declaration order *)
 Lemma init_objs_aux (p : program) (bodyf : procdef -> form) : forall (l : list procdef) (k : nat),
+  Forall (fun pr => exists x, pr_providers pr = [x]) l ->
   flat_map (fun x : nat * (procdef * list (name * name)) =>
-              proc_obj (Proc (map snd (snd (snd x))) (bodyf (fst (snd x))) (length (snd (snd x)))))
+              proc_obj [fst x] (Proc (map snd (snd (snd x))) (bodyf (fst (snd x))) (length (snd (snd x)))))
            (imap (fun i x => ((k + i)%nat, x))
                  (combine l (imap (fun i pr => init_provs (k + i) (pr_providers pr)) l))) =
   concat (imap (fun i pr => match pr_providers pr with
@@ -580,31 +651,29 @@ Lemma init_objs_aux (p : program) (bodyf : procdef -> form) : forall (l : list p
                             | _ => []
                             end) l).
 Proof.
-  induction l as [|pr l IH]; intros k; cbn; [done|]. f_equal.
-  - unfold proc_obj. cbn. destruct (pr_providers pr) as [|x [|y r]]; cbn; try done.
-  - etransitivity; [|etransitivity; [apply (IH (S k))|]].
+  induction l as [|pr l IH]; intros k Hall; cbn; [done|]. apply Forall_cons_iff in Hall as [[x Hx] Hall]. f_equal.
+  - unfold proc_obj, pobj. cbn. rewrite Hx. cbn. done.
+  - etransitivity; [|etransitivity; [apply (IH (S k) Hall)|]].
     + f_equal. etransitivity; [apply imap_ext|f_equal; f_equal; apply imap_ext].
-      * intros i x _. cbn. f_equal. lia.
-      * intros i x _. cbn. f_equal. lia.
-    + f_equal. apply imap_ext. intros i x _. cbn. by replace (S (k + i)) with (k + S i)%nat by lia.
+      * intros i y _. cbn. f_equal. lia.
+      * intros i y _. cbn. f_equal. lia.
+    + f_equal. apply imap_ext. intros i y _. cbn. by replace (S (k + i)) with (k + S i)%nat by lia.
 Qed.
 
-Theorem alpha_init (p : program) : α (init_config p) ≡ₚ sax_init p.
+(* for configurations with one provider per process (every fragment the refinement is proved for) *)
+Theorem alpha_init (p : program) :
+  (forall q pr, procs (init_config p) !! q = Some pr -> exists n, pr_provs pr = [n]) ->
+  α (init_config p) ≡ₚ sax_init p.
 Proof.
+  intros Hs. pose proof (init_single p Hs) as Hall.
   unfold α. rewrite (chans_objs_empty (chans (init_config p))), app_nil_r.
   2:{ intros k st Hk. destruct (init_causal_inv p) as [Hb _]. specialize (Hb k).
       unfold buf, bufm in Hb. by rewrite Hk in Hb. }
-  unfold init_config. cbn [procs]. unfold procs_objs.
+  unfold procs_objs. rewrite (init_procs_list p). cbn zeta.
   set (inits := imap (fun i pr => init_provs i (pr_providers pr)) (p_procs p)).
   set (bodyf := fun pr : procdef => fold_left (fun b '(old, new) => subst old new b) (concat inits) (pr_body pr)).
-  rewrite (fold_left_insert_to_list _ (fun x => [fst x])
-             (fun x => Proc (map snd (snd (snd x))) (bodyf (fst (snd x))) (length (snd (snd x))))).
-  - rewrite map_to_list_empty, app_nil_r. rewrite flat_map_concat_map, map_map, <- flat_map_concat_map. cbn [snd].
-    exact (eq_ind _ (fun x => x ≡ₚ _) (reflexivity _) _ (eq_sym (init_objs_aux p bodyf (p_procs p) 0))).
-  - by intros m [i [pr ini]].
-  - rewrite <- (map_map fst (fun i : nat => [i])). apply FinFun.Injective_map_NoDup; [by intros x y [= ->]|].
-    rewrite (map_fst_imap_pair _ 0). apply seq_NoDup.
-  - intros x _. apply lookup_empty.
+  rewrite flat_map_concat_map, map_map, <- flat_map_concat_map. cbn [fst snd].
+  exact (eq_ind _ (fun x => x ≡ₚ _) (reflexivity _) _ (eq_sym (init_objs_aux p bodyf (p_procs p) 0 Hall))).
 Qed.
 
 (* ---- with preservation of Inv as a hypothesis (it follows from Typed + Topo, C01) ---- *)
@@ -631,6 +700,7 @@ Proof.
   destruct (refines_sax_run D F _ _ (steps_inv_steps _ _ _ HI Hrun)) as (ls & Hs & Hl).
   exists (α (res_config r)). rewrite Hl. change (labels (init_config p)) with (@nil string). cbn.
   eapply sax_steps_perm; [symmetry; apply alpha_init|done].
+  intros q pr Hq. destruct (HI q pr Hq) as ((n & a & Hn & _) & _). eauto.
 Qed.
 End with_preservation.
 
@@ -747,15 +817,26 @@ Proof.
     + simplify_eq. split; [done|]. exists []. split; [by apply sax_refl|by rewrite app_nil_r].
 Qed.
 
+(* one provider per process, decided *)
+Definition single_cfg_b (c : config) : bool :=
+  forallb (fun x : pid * proc => match pr_provs (snd x) with [_] => true | _ => false end) (map_to_list (procs c)).
+Lemma single_cfg_b_sound c : single_cfg_b c = true ->
+  forall q pr, procs c !! q = Some pr -> exists n, pr_provs pr = [n].
+Proof.
+  unfold single_cfg_b. rewrite forallb_forall. intros H q pr Hq.
+  specialize (H (q, pr)). cbn in H. destruct (pr_provs pr) as [|n [|]]; eauto; discriminate H; by apply elem_of_list_In, elem_of_map_to_list.
+Qed.
+
 (* from the initial configuration of a program: the SAX execution starts from Sax.sax_init *)
 Corollary prints_admitted_checked_init fuel pick (p : program) r :
+  single_cfg_b (init_config p) = true ->
   exec_checked fuel pick (p_types p) (p_funs p) (init_config p) = Some r ->
   exec_run fuel pick Async (p_types p) (p_funs p) (init_config p) = r /\
   sax_steps (p_funs p) false (sax_init p) (labels (res_config r)) (α (res_config r)).
 Proof.
-  intros H. destruct (prints_admitted_checked _ _ _ _ _ _ H) as (Hr & ls & Hs & Hl). split; [done|].
+  intros Hsg H. destruct (prints_admitted_checked _ _ _ _ _ _ H) as (Hr & ls & Hs & Hl). split; [done|].
   rewrite Hl. change (labels (init_config p)) with (@nil string). cbn.
-  eapply sax_steps_perm; [symmetry; apply alpha_init|done].
+  eapply sax_steps_perm; [symmetry; apply alpha_init; by apply single_cfg_b_sound|done].
 Qed.
 
 (* ------------------------------------------------------------------ the full statement aimed at *)
